@@ -50,9 +50,16 @@ func c17R1(h H) {
 			limOK := false
 			var entry ssa.Value
 			if shape {
-				p, root := fieldPath(mk.Call.Args[2])
-				limOK = p == "Limit"
-				entry = root
+				// the limit handed to the reader: possibly through a merge of "found"/"not found" results, of which
+				// only the values that can reach this store count
+				limOK = true
+				for _, lv := range valuesAt(fn, mk.Call.Args[2], in) {
+					p, root := fieldPath(lv)
+					if p != "Limit" || (entry != nil && !sameValue(root, entry) && root != entry) {
+						limOK = false
+					}
+					entry = root
+				}
 			}
 			var match, body bool
 			var extra []string
@@ -61,6 +68,8 @@ func c17R1(h H) {
 				case isNilCmpOfField(g, "Body", false):
 					body = true
 				case isLoopCond(g):
+				case isConstFlag(g.Cond):
+					// a found/not-found flag: the conditions under which it is set appear as guards themselves
 				default:
 					if c, ok := g.Cond.(*ssa.Call); ok && strings.HasSuffix(calleeName(&c.Call), "httpserver.Path).Matches") && g.Pos {
 						p, root := fieldPath(c.Call.Args[1])
@@ -359,7 +368,8 @@ func c17R4(h H) {
 				p, root := fieldPath(st.Val)
 				if g, isG := root.(*ssa.Global); isG && g.Name() == "defaultTimeouts" {
 					defaults = append(defaults, st)
-				} else if strings.HasSuffix(p, "Timeouts."+f) {
+				} else if (strings.HasSuffix(p, "Timeouts."+f) || p == f) && root != rootOf(fa) {
+					// a site's value (read from the site config or from a local copy of its Timeouts) stored into the accumulator
 					takes = append(takes, st)
 				}
 			})
@@ -368,35 +378,37 @@ func c17R4(h H) {
 				continue
 			}
 			for _, st := range takes {
+				acc := rootOf(st.Addr)
+				isAcc := func(root ssa.Value) bool { return root == acc }
 				setEdges := guardEdges(fn, true, func(v ssa.Value) bool {
 					p, root := fieldPath(v)
-					_, isAlloc := root.(*ssa.Alloc)
-					return strings.HasSuffix(p, "Timeouts."+f+"Set") && !isAlloc
+					return (strings.HasSuffix(p, "Timeouts."+f+"Set") || p == f+"Set") && !isAcc(root)
 				})
 				accUnset := guardEdges(fn, false, func(v ssa.Value) bool {
 					p, root := fieldPath(v)
-					_, isAlloc := root.(*ssa.Alloc)
-					return p == f+"Set" && isAlloc
+					return p == f+"Set" && isAcc(root)
 				})
 				smaller := map[edge]bool{}
 				larger := false
 				for _, i := range ifs(fn) {
-					b, ok := i.Cond.(*ssa.BinOp)
-					if !ok || (b.Op != token.LSS && b.Op != token.GTR) {
+					v, flip := stripNot(i.Cond)
+					b, ok := v.(*ssa.BinOp)
+					if !ok || (b.Op != token.LSS && b.Op != token.GTR && b.Op != token.LEQ && b.Op != token.GEQ) {
 						continue
 					}
 					px, rx := fieldPath(b.X)
 					py, ry := fieldPath(b.Y)
-					_, xAcc := rx.(*ssa.Alloc)
-					_, yAcc := ry.(*ssa.Alloc)
-					if !(strings.HasSuffix(px, f) && strings.HasSuffix(py, f)) {
+					xAcc, yAcc := isAcc(rx), isAcc(ry)
+					if !(strings.HasSuffix(px, f) && strings.HasSuffix(py, f)) || xAcc == yAcc {
 						continue
 					}
-					cfgLeft := !xAcc && yAcc
-					cfgRight := xAcc && !yAcc
-					if b.Op == token.LSS && cfgLeft || b.Op == token.GTR && cfgRight {
-						smaller[edge{i.Block(), 0}] = true
-					} else {
+					// the outcome on which the site's value is strictly smaller than the accumulator's
+					switch {
+					case b.Op == token.LSS && yAcc, b.Op == token.GTR && xAcc:
+						smaller[condEdge{i, !flip}.edge()] = true
+					case b.Op == token.GEQ && yAcc, b.Op == token.LEQ && xAcc:
+						smaller[condEdge{i, flip}.edge()] = true
+					default:
 						larger = true
 					}
 				}
